@@ -185,12 +185,12 @@ impl ChildResult {
     pub fn stderr_masked(&self, max: usize) -> String {
         let s = String::from_utf8_lossy(&self.stderr);
         let joined: Vec<&str> = s.lines().map(|l| l.trim()).filter(|l| !l.is_empty() && !l.starts_with("note: run with")).collect();
-        joined.join(" | ").chars().map(|c| if c.is_ascii_digit() { '#' } else { c }).take(max).collect()
+        super::util::mask_digits(&joined.join(" | ")).chars().take(max).collect()
     }
     pub fn stderr_first_line_masked(&self) -> String {
         let s = String::from_utf8_lossy(&self.stderr);
         let line = s.lines().find(|l| !l.trim().is_empty()).unwrap_or("");
-        line.chars().map(|c| if c.is_ascii_digit() { '#' } else { c }).take(200).collect()
+        super::util::mask_digits(line).chars().take(200).collect()
     }
 }
 
